@@ -323,7 +323,8 @@ def check_match(spec, ctx):
 @st.composite
 def project_case(draw):
     n = draw(st.integers(1, 4))
-    return {"clips": [[draw(st.booleans()), draw(st.booleans())] for _ in range(n)], "salt": draw(st.integers(1, 2**32)), "dup_uuid_clip": draw(st.booleans())}
+    return {"clips": [[draw(st.booleans()), draw(st.booleans())] for _ in range(n)], "salt": draw(st.integers(1, 2**32)), "dup_uuid_clip": draw(st.booleans()),
+            "ann_order": draw(st.permutations(list(range(n)))), "task_order": draw(st.permutations(list(range(n)))), "double": draw(st.integers(0, 3)) == 0}
 
 
 def check_project(spec, ctx):
@@ -331,15 +332,22 @@ def check_project(spec, ctx):
 
     ids = Ids(spec["salt"])
     rec, clips = base_objects(ids, len(spec["clips"]))
+    n = len(clips)
+    if sorted(spec.get("ann_order", range(n))) != list(range(n)) or sorted(spec.get("task_order", range(n))) != list(range(n)):
+        raise ValueError("malformed spec")
     tasks, anns = [], []
-    for clip, (has_task, annotated) in zip(clips, spec["clips"]):
-        if has_task:
-            tasks.append(data.AnnotationTask(uuid=ids(), clip=clip, created_on="2020-01-01T00:00:00"))
+    for k in spec.get("task_order", range(n)):  # tasks and annotations are listed in independent orders
+        if spec["clips"][k][0]:
+            tasks.append(data.AnnotationTask(uuid=ids(), clip=clips[k], created_on="2020-01-01T00:00:00"))
+    for k in spec.get("ann_order", range(n)):
+        clip, (has_task, annotated) = clips[k], spec["clips"][k]
         if annotated:
             c = clip
             if spec["dup_uuid_clip"]:
                 c = data.Clip(uuid=clip.uuid, recording=rec, start_time=clip.start_time, end_time=clip.end_time)  # equal copy, same uuid
             anns.append(data.ClipAnnotation(uuid=ids(), clip=c, created_on="2020-01-01T00:00:00"))
+            if spec.get("double"):  # two annotations of the same task clip
+                anns.append(data.ClipAnnotation(uuid=ids(), clip=c, created_on="2020-01-01T00:00:00"))
     exp = all(has_task or not annotated for has_task, annotated in spec["clips"])
     ctx.case(spec, nontrivial=any(a and not t for t, a in spec["clips"]) or not any(a for _, a in spec["clips"]), labels=["exp=ok" if exp else "exp=reject"])
     kw = {"uuid": ids(), "name": "p", "tasks": tasks, "clip_annotations": anns, "created_on": "2020-01-01T00:00:00"}
